@@ -103,6 +103,7 @@ func scQueueDirect(r *Run) {
 	nextID := uint64(1)
 	cancelled := false
 	var pushed, pulled []uint64
+	quietObserve := false
 
 	observe := func() {
 		// stamp completions seen at this rest point
@@ -121,7 +122,7 @@ func scQueueDirect(r *Run) {
 					// results of operations that complete before cancellation are deterministic
 					// (exactly one select case was ready) and are part of the trace
 					r.Tracef("  done %s(%d) ok=%v val=%d", op.kind, op.arg, op.ok, op.val)
-				} else {
+				} else if !quietObserve {
 					r.Tracef("  done %s(%d)", op.kind, op.arg)
 				}
 			} else {
@@ -184,7 +185,9 @@ func scQueueDirect(r *Run) {
 		}
 	}
 
-	for len(ops) < maxOps && r.Stats.Steps < 400 && !r.Failed() {
+	// once the context is cancelled no new operation is issued: a select that finds both its cases ready
+	// picks one at random inside the Go runtime, so results after cancellation must not steer the schedule
+	for len(ops) < maxOps && r.Stats.Steps < 400 && !r.Failed() && !cancelled {
 		observe()
 		checkWake()
 		if r.Failed() {
@@ -241,19 +244,20 @@ func scQueueDirect(r *Run) {
 			r.Fault("cancel")
 		}
 		syncWait()
-		observe()
-		for i := 0; i < 8; i++ { // release tasks parked at hooks; each must then return
+		// after cancellation a select may find both of its cases ready and then picks one at random inside
+		// the Go runtime: from here on nothing is traced per task and hooks no longer park anybody
+		r.DisarmAll()
+		for i := 0; i < 8; i++ {
 			pk := r.ParkedTasks()
 			if len(pk) == 0 {
 				break
 			}
 			for _, t := range pk {
-				r.Step()
-				r.Tracef("resume %s@%s (after cancel)", t.Name, t.Parked())
 				t.Resume()
 			}
-			observe()
 		}
+		quietObserve = true
+		observe()
 		for _, op := range pending {
 			r.Fail("cancel-not-prompt", op.kind, "%s(%d) did not return after cancellation", op.kind, op.arg)
 		}
